@@ -51,6 +51,8 @@ def run(prog, tier):
     from ._families import borrow
     borrow(R, P, "BUILDER", prog, c04.check_builder_paths, builder_table(prog), floor=14)
     borrow(R, P, "BUILDER", prog, c04.check_parity, floor=1)
+    # the CNF rendering of a linear constraint must mean the constraint the OPB rendering stores: add_linear by truth table
+    borrow(R, P, "BUILDER", prog, c04.check_add_linear, floor=4)
     # both tools must build the same graph from the same seed: the seeding discipline of C07, for cnfgen and pbgen alike
     from . import c07
     from ..callgraph import Resolver
